@@ -7,7 +7,7 @@ import atexit, fcntl, hashlib, json, os, random, re, shutil, subprocess, sys, te
 from concurrent.futures import ThreadPoolExecutor
 
 VERIF = os.path.dirname(os.path.dirname(os.path.dirname(os.path.abspath(__file__))))
-REPO = os.environ.get("KALIGN_REPO", "/repo")
+REPO = os.environ.get("KALIGN_REPO") or "/repo"
 
 
 def _ensure_dev_null():
